@@ -7573,6 +7573,12 @@ func (l *Lowerer) lowerCall(call *parser.CallExpr, target *[]ir.Statement) (ir.E
 	isStatement := l.isStatement
 	l.isStatement = false
 
+	// A function declared by the program shadows a built-in function of the
+	// same name (module-scope declarations shadow predeclared identifiers).
+	if funcHandle, isUser := l.functions[funcName]; isUser {
+		return l.lowerUserCall(funcName, funcHandle, call, isStatement, target)
+	}
+
 	// Check if this is a built-in function (vec4, vec3, etc.)
 	if l.isBuiltinConstructor(funcName) {
 		return l.lowerBuiltinConstructor(funcName, call.Args, target)
@@ -7687,12 +7693,12 @@ func (l *Lowerer) lowerCall(call *parser.CallExpr, target *[]ir.Statement) (ir.E
 		return l.lowerTypeConstructorCall(typeHandle, call.Args, target)
 	}
 
-	// Regular function call - look up function handle
-	funcHandle, ok := l.functions[funcName]
-	if !ok {
-		return 0, fmt.Errorf("unknown function: %s", funcName)
-	}
+	// Not a built-in, not a type, not a declared function.
+	return 0, fmt.Errorf("unknown function: %s", funcName)
+}
 
+// lowerUserCall lowers a call of a function declared by the program.
+func (l *Lowerer) lowerUserCall(funcName string, funcHandle ir.FunctionHandle, call *parser.CallExpr, isStatement bool, target *[]ir.Statement) (ir.ExpressionHandle, error) {
 	// Enforce @must_use: if the function is marked @must_use and its result
 	// is discarded as a statement, emit an error.
 	// Matches Rust naga: FunctionMustUseUnused.
